@@ -85,7 +85,7 @@ def handle (j : Json) : Except String Json := do
     let l := match s with
       | none => none
       | some (f, fr) => load f fr
-    return obj [("file", graphJson s), ("loaded", graphJson l)]
+    return obj [("file", graphJson s), ("loaded", graphJson l), ("wf", Json.bool (wfB g))]
   else if k == "leg" then
     let l ← parseLeg (← field j "leg")
     let fmt ← getStr (← field j "fmt")
